@@ -54,6 +54,7 @@ type resHandle struct {
 	rec       gowarc.WarcRecord
 	bld       gowarc.WarcRecordBuilder
 	hasCloser bool // a record from Unmarshal or Build (ToRevisitRecord's has no closer)
+	built     *bool // a record has been built from this builder (it shares the builder's buffer)
 }
 
 func recordBytes(kind string, n int) []byte {
@@ -154,15 +155,18 @@ func kRes(args []string) (string, string) {
 			} else {
 				m = fmt.Sprintf("nb:%d:0", mem)
 			}
-			handles = append(handles, &resHandle{closer: rb, bld: rb, dead: new(bool), dir: bdir})
+			handles = append(handles, &resHandle{closer: rb, bld: rb, dead: new(bool), dir: bdir, built: new(bool)})
 		case "w", "rf": // w:<h>:<n>
 			h := get(f[1])
 			n, _ := strconv.Atoi(f[2])
-			if h == nil || h.bld == nil {
+			if h == nil || h.bld == nil || (*h.dead && h.built != nil && *h.built) {
+				// writing into a builder whose RECORD exists and has been closed stays outside the scenarios: a record's Close
+				// takes effect once only (its closer is dropped), so which later Close releases such bytes depends on the kind of
+				// handle, which the ownership model does not distinguish
 				break
 			}
-			// also into a builder that has been closed: diskbuffer.Close only deals with the file part, a buffer that has not
-			// spilled goes on; what it spills afterwards is removed by the NEXT Close (model: RBuf.shut)
+			// also into a builder that has been closed (and never built): diskbuffer.Close only deals with the file part, a buffer
+			// that has not spilled goes on; what it spills afterwards is removed by the NEXT Close (model: RBuf.shut)
 			data := []byte(strings.Repeat("x", n))
 			if f[0] == "w" {
 				_, _ = h.bld.Write(data)
@@ -177,6 +181,9 @@ func kRes(args []string) (string, string) {
 			}
 			rec, _, berr := h.bld.Build()
 			if rec != nil {
+				if h.built != nil {
+					*h.built = true
+				}
 				hd := &resHandle{closer: rec, rec: rec, hasCloser: true, dead: h.dead, dir: h.dir}
 				if berr != nil {
 					hd.rec = nil
